@@ -128,9 +128,8 @@ func GenCycle(r *vh.Rng, forceProportion bool) CycleSpec {
 			case 0, 1:
 				ts.Status = vh.Pick(r, []int64{SRunning, SRunning, SBound, SReleasing})
 			case 2:
-				if r.Chance(1, 2) {
-					ts.Status = vh.Pick(r, []int64{SSucceeded, SSucceeded, SFailed})
-				}
+				// finished pods of the gang: succeeded ones count towards minMember, failed ones do not
+				ts.Status = vh.Pick(r, []int64{SSucceeded, SFailed, SFailed, SPending})
 			}
 			if ts.Status != SPending {
 				nid := int64(r.Range(1, nn))
